@@ -9,59 +9,85 @@ use muxide::verif_hooks::mp4::verif as mp4h;
 
 const RMAX: usize = 64;
 
-/// Byte-logging sink for the fault-free reference run (everything concrete).
-struct LogSink {
-    bytes: [u8; RMAX],
-    total: usize,
-}
-impl std::io::Write for LogSink {
-    fn write(&mut self, buf: &[u8]) -> std::io::Result<usize> {
-        let n = buf.len();
-        assert!(self.total + n <= RMAX);
-        self.bytes[self.total..self.total + n].copy_from_slice(buf);
-        self.total += n;
-        Ok(n)
+/// The fault-free byte stream of this shape, assembled from the real ftyp, the (concrete)
+/// interleave order and the 8-byte moov stand-in: reference layout, not a second run.
+fn ref_stream<const NV: usize, const NA: usize>(vpts: &[u64; NV], apts: &[u64; NA], fast_start: bool, audio: bool) -> ([u8; RMAX], usize) {
+    let mut r = [0u8; RMAX];
+    let ftyp = mp4h::build_ftyp_box();
+    let f = crate::bx::snap::<24>(&ftyp);
+    r[..24].copy_from_slice(&f);
+    let mut p = 24usize;
+    let moov = [MOOV_TAG, 0, 0, 0, 0, 0, 0, 0];
+    if fast_start {
+        r[p..p + 8].copy_from_slice(&moov);
+        p += 8;
     }
-    fn flush(&mut self) -> std::io::Result<()> {
-        Ok(())
+    let payload_total = total_payload::<NV, NA>() as usize;
+    let have_mdat = NV + NA > 0 || fast_start || audio;
+    if have_mdat {
+        r[p + 3] = (8 + payload_total) as u8;
+        r[p + 4] = b'm';
+        r[p + 5] = b'd';
+        r[p + 6] = b'a';
+        r[p + 7] = b't';
+        p += 8;
+        let data_start = p;
+        let mut i = 0;
+        while i < NV {
+            let o = if audio { data_start + bytes_before(vpts, apts, rank(vpts, apts, 0, i)) as usize } else {
+                let mut run = 0;
+                let mut k = 0;
+                while k < i {
+                    run += VSIZE[k];
+                    k += 1;
+                }
+                data_start + run
+            };
+            let mut k = 0;
+            while k < VSIZE[i] {
+                r[o + k] = vtag(i);
+                k += 1;
+            }
+            i += 1;
+        }
+        let mut j = 0;
+        while j < NA {
+            let o = data_start + bytes_before(vpts, apts, rank(vpts, apts, 1, j)) as usize;
+            let mut k = 0;
+            while k < ASIZE[j] {
+                r[o + k] = atag(j);
+                k += 1;
+            }
+            j += 1;
+        }
+        p += payload_total;
     }
+    if !fast_start {
+        r[p..p + 8].copy_from_slice(&moov);
+        p += 8;
+    }
+    (r, p)
 }
 
-/// mode bits: 1 = symbolic hard-failure index, 2 = symbolic short-write index, 4 = symbolic Interrupted index
-fn fault_body<const NV: usize, const NA: usize>(fast_start: bool, audio: bool, mode: u8) {
+/// One misbehaving write call at the CONCRETE index `at`; what it does is symbolic: fail
+/// hard, report Interrupted, or accept only a symbolic number of bytes (0 = WriteZero).
+fn fault_body<const NV: usize, const NA: usize>(fast_start: bool, audio: bool, at: usize) {
     no_carrier();
     let vpts: [u64; NV] = core::array::from_fn(|i| 3000 * i as u64);
     let apts: [u64; NA] = core::array::from_fn(|j| 1500 + 3000 * j as u64);
     let vkey: [bool; NV] = core::array::from_fn(|i| i == 0);
-    // ---- reference run ----------------------------------------------------------------
-    let video0: [_; NV] = core::array::from_fn(|i| mp4h::mk_sample(vpts[i], 1000 * i as u64, payload(vtag(i), VSIZE[i]), vkey[i], None));
-    let audio0: [_; NA] = core::array::from_fn(|j| mp4h::mk_sample(apts[j], apts[j], payload(atag(j), ASIZE[j]), false, None));
-    let mut w0 = mp4h::writer_with_state::<LogSink, NV, NA>(LogSink { bytes: [0; RMAX], total: 0 }, muxide::api::VideoCodec::Vp9, video0,
-        if audio { Some(audio_track()) } else { None }, audio0, None, None, None, None, None, false, 0);
-    let r0 = w0.finalize(&VIDEO, None, fast_start);
-    assert!(r0.is_ok());
-    let rlen = mp4h::sink(&w0).total;
+    let (rb, rlen) = ref_stream::<NV, NA>(&vpts, &apts, fast_start, audio);
     // ---- faulty run ---------------------------------------------------------------------
     let mut sink = RecSink::new();
-    if mode & 1 != 0 {
-        sink.fail_at = kani::any();
-        kani::assume(sink.fail_at <= K);
-    }
-    if mode & 2 != 0 {
-        sink.short_at = kani::any();
-        kani::assume(sink.short_at <= K);
-    }
-    if mode & 4 != 0 {
-        sink.intr_at = kani::any();
-        kani::assume(sink.intr_at <= K);
-    }
+    sink.fault_at = at;
+    sink.fault_fail = kani::any();
+    sink.fault_intr = kani::any();
+    sink.fault_accept = kani::any();
     let mut w = build_writer::<NV, NA>(sink, vpts, vkey, apts, audio);
     let r = w.finalize(&VIDEO, None, fast_start);
     let s = mp4h::sink(&w);
     assert!(r.is_err() == s.failed, "finalize reports an error iff a write ultimately failed");
     assert!(s.calls <= K, "bounded number of write calls");
-    // accepted chunks: contiguous, each starting with the byte the fault-free file has there
-    let rb = &mp4h::sink(&w0).bytes;
     let mut pos = 0usize;
     macro_rules! chunk {
         ($($i:expr),*) => { $(
@@ -78,7 +104,6 @@ fn fault_body<const NV: usize, const NA: usize>(fast_start: bool, audio: bool, m
         assert!(pos == rlen, "short or interrupted writes alone lose nothing");
         assert!(mp4h::bytes_written(&w) == rlen as u64, "reported byte count = fault-free length");
     }
-    // after the attempt (successful or not) nothing further is ever written
     let calls = s.calls;
     let total = s.total;
     let failed = s.failed;
@@ -87,42 +112,73 @@ fn fault_body<const NV: usize, const NA: usize>(fast_start: bool, audio: bool, m
     let r3 = w.write_video_sample_with_dts(1 << 40, 1 << 40, &[1u8], true);
     assert!(r3.is_err(), "writes after a (failed) finalize are refused");
     assert!(mp4h::sink(&w).calls == calls && mp4h::sink(&w).total == total, "no later call writes anything");
-    kani::cover!(mode & 1 == 0 || (failed && total > 0 && (total as usize) < rlen), "hard failure in the middle of the file");
-    kani::cover!(mode & 6 == 0 || (!failed && total as usize == rlen), "short / interrupted writes retried to completion");
-    kani::cover!(mode & 1 == 0 || (failed && total == 0), "failure on the very first write");
-    core::mem::forget((w, w0, r, r0, r2, r3));
+    kani::cover!(failed && (total as usize) < rlen, "failure reached");
+    kani::cover!(!failed && calls > 0, "completed despite the fault");
+    core::mem::forget((w, r, r2, r3));
 }
 
 macro_rules! fault_h {
-    ($name:ident, $nv:expr, $na:expr, $fast:expr, $audio:expr, $mode:expr, $unw:expr) => {
+    ($name:ident, $nv:expr, $na:expr, $fast:expr, $audio:expr, $at:expr, $unw:expr) => {
         #[kani::proof]
         #[kani::unwind($unw)]
         #[kani::stub(muxide::invariant_ppt::__assert_invariant_impl, crate::stubs::assert_invariant_stub)]
         #[kani::stub(muxide::muxer::mp4::build_moov_box, muxide::verif_hooks::mp4::verif::moov_recording_stub)]
         pub fn $name() {
-            fault_body::<$nv, $na>($fast, $audio, $mode);
+            fault_body::<$nv, $na>($fast, $audio, $at);
         }
     };
 }
-//@ prop=C13 tier=quick cost=300 fns="Mp4Writer::finalize,finalize_standard,write_counted,io::Write::write_all" bound="standard, video-only 2 samples; hard failure at any write call index 0..=12" unwind=4 stubs="build_moov_box(recording stand-in)" timeout=1500
-fault_h!(c13_fail_std_v2, 2, 0, false, false, 1, 4);
-//@ prop=C13 tier=quick cost=300 fns="Mp4Writer::finalize,finalize_fast_start,write_counted,io::Write::write_all" bound="fast start, 1 video + 1 audio sample; hard failure at any write call index" unwind=4 stubs="build_moov_box(recording stand-in)" timeout=1500
-fault_h!(c13_fail_fast_v1a1, 1, 1, true, true, 1, 4);
-//@ prop=C13 tier=quick cost=400 fns="Mp4Writer::finalize,finalize_standard,write_counted,io::Write::write_all" bound="standard, 1 video + 1 audio sample; one write cut to a single byte at any call index" unwind=4 stubs="build_moov_box(recording stand-in)" timeout=1500
-fault_h!(c13_short_std_v1a1, 1, 1, false, true, 2, 4);
-//@ prop=C13 tier=quick cost=400 fns="Mp4Writer::finalize,finalize_fast_start,write_counted,io::Write::write_all" bound="fast start, video-only 2 samples; one Interrupted result at any call index" unwind=4 stubs="build_moov_box(recording stand-in)" timeout=1500
-fault_h!(c13_intr_fast_v2, 2, 0, true, false, 4, 4);
-//@ prop=C13 tier=thorough cost=900 fns="Mp4Writer::finalize,finalize_standard,write_counted,io::Write::write_all" bound="standard, 2 video + 1 audio samples; hard failure at any call index" unwind=5 stubs="build_moov_box(recording stand-in)" timeout=3000 mem=30
-fault_h!(c13_fail_std_v2a1, 2, 1, false, true, 1, 5);
-//@ prop=C13 tier=thorough cost=900 fns="Mp4Writer::finalize,finalize_fast_start,write_counted,io::Write::write_all" bound="fast start, 2 video + 1 audio samples; hard failure at any call index" unwind=5 stubs="build_moov_box(recording stand-in)" timeout=3000 mem=30
-fault_h!(c13_fail_fast_v2a1, 2, 1, true, true, 1, 5);
-//@ prop=C13 tier=thorough cost=900 fns="Mp4Writer::finalize,finalize_standard,write_counted,io::Write::write_all" bound="standard, video-only 2 samples; short write AND hard failure at any two call indices" unwind=4 stubs="build_moov_box(recording stand-in)" timeout=3000 mem=30
-fault_h!(c13_short_fail_std_v2, 2, 0, false, false, 3, 4);
-//@ prop=C13 tier=thorough cost=900 fns="Mp4Writer::finalize,finalize_fast_start,write_counted,io::Write::write_all" bound="fast start, 1 video + 1 audio; short write AND Interrupted at any two call indices" unwind=5 stubs="build_moov_box(recording stand-in)" timeout=3000 mem=30
-fault_h!(c13_short_intr_fast_v1a1, 1, 1, true, true, 6, 5);
+//@ prop=C13 tier=thorough cost=900 fns="Mp4Writer::finalize,finalize_standard,write_counted,io::Write::write_all" bound="standard, video-only 2 samples; write call #0 fails hard / is Interrupted / accepts any number of bytes (all symbolic)" unwind=5 stubs="build_moov_box(recording stand-in)" timeout=3000
+fault_h!(c13_std_v2_at0, 2, 0, false, false, 0, 5);
+//@ prop=C13 tier=thorough cost=900 fns="Mp4Writer::finalize,finalize_standard,write_counted,io::Write::write_all" bound="standard, video-only 2 samples; write call #1 fails hard / is Interrupted / accepts any number of bytes (all symbolic)" unwind=5 stubs="build_moov_box(recording stand-in)" timeout=3000
+fault_h!(c13_std_v2_at1, 2, 0, false, false, 1, 5);
+//@ prop=C13 tier=thorough cost=900 fns="Mp4Writer::finalize,finalize_standard,write_counted,io::Write::write_all" bound="standard, video-only 2 samples; write call #2 fails hard / is Interrupted / accepts any number of bytes (all symbolic)" unwind=5 stubs="build_moov_box(recording stand-in)" timeout=3000
+fault_h!(c13_std_v2_at2, 2, 0, false, false, 2, 5);
+//@ prop=C13 tier=quick cost=300 fns="Mp4Writer::finalize,finalize_standard,write_counted,io::Write::write_all" bound="standard, video-only 2 samples; write call #3 fails hard / is Interrupted / accepts any number of bytes (all symbolic)" unwind=5 stubs="build_moov_box(recording stand-in)" timeout=1200
+fault_h!(c13_std_v2_at3, 2, 0, false, false, 3, 5);
+//@ prop=C13 tier=thorough cost=900 fns="Mp4Writer::finalize,finalize_standard,write_counted,io::Write::write_all" bound="standard, video-only 2 samples; write call #4 fails hard / is Interrupted / accepts any number of bytes (all symbolic)" unwind=5 stubs="build_moov_box(recording stand-in)" timeout=3000
+fault_h!(c13_std_v2_at4, 2, 0, false, false, 4, 5);
+//@ prop=C13 tier=quick cost=300 fns="Mp4Writer::finalize,finalize_standard,write_counted,io::Write::write_all" bound="standard, video-only 2 samples; write call #5 fails hard / is Interrupted / accepts any number of bytes (all symbolic)" unwind=5 stubs="build_moov_box(recording stand-in)" timeout=1200
+fault_h!(c13_std_v2_at5, 2, 0, false, false, 5, 5);
+//@ prop=C13 tier=thorough cost=900 fns="Mp4Writer::finalize,finalize_fast_start,write_counted,io::Write::write_all" bound="fast start, 1 video + 1 audio sample; write call #0 fails hard / is Interrupted / accepts any number of bytes (all symbolic)" unwind=5 stubs="build_moov_box(recording stand-in)" timeout=3000
+fault_h!(c13_fast_v1a1_at0, 1, 1, true, true, 0, 5);
+//@ prop=C13 tier=thorough cost=900 fns="Mp4Writer::finalize,finalize_fast_start,write_counted,io::Write::write_all" bound="fast start, 1 video + 1 audio sample; write call #1 fails hard / is Interrupted / accepts any number of bytes (all symbolic)" unwind=5 stubs="build_moov_box(recording stand-in)" timeout=3000
+fault_h!(c13_fast_v1a1_at1, 1, 1, true, true, 1, 5);
+//@ prop=C13 tier=thorough cost=900 fns="Mp4Writer::finalize,finalize_fast_start,write_counted,io::Write::write_all" bound="fast start, 1 video + 1 audio sample; write call #2 fails hard / is Interrupted / accepts any number of bytes (all symbolic)" unwind=5 stubs="build_moov_box(recording stand-in)" timeout=3000
+fault_h!(c13_fast_v1a1_at2, 1, 1, true, true, 2, 5);
+//@ prop=C13 tier=thorough cost=900 fns="Mp4Writer::finalize,finalize_fast_start,write_counted,io::Write::write_all" bound="fast start, 1 video + 1 audio sample; write call #3 fails hard / is Interrupted / accepts any number of bytes (all symbolic)" unwind=5 stubs="build_moov_box(recording stand-in)" timeout=3000
+fault_h!(c13_fast_v1a1_at3, 1, 1, true, true, 3, 5);
+//@ prop=C13 tier=quick cost=300 fns="Mp4Writer::finalize,finalize_fast_start,write_counted,io::Write::write_all" bound="fast start, 1 video + 1 audio sample; write call #4 fails hard / is Interrupted / accepts any number of bytes (all symbolic)" unwind=5 stubs="build_moov_box(recording stand-in)" timeout=1200
+fault_h!(c13_fast_v1a1_at4, 1, 1, true, true, 4, 5);
+//@ prop=C13 tier=thorough cost=900 fns="Mp4Writer::finalize,finalize_fast_start,write_counted,io::Write::write_all" bound="fast start, 1 video + 1 audio sample; write call #5 fails hard / is Interrupted / accepts any number of bytes (all symbolic)" unwind=5 stubs="build_moov_box(recording stand-in)" timeout=3000
+fault_h!(c13_fast_v1a1_at5, 1, 1, true, true, 5, 5);
+//@ prop=C13 tier=thorough cost=900 fns="Mp4Writer::finalize,finalize_standard,write_counted,io::Write::write_all" bound="standard, 1 video + 1 audio sample; write call #0 fails hard / is Interrupted / accepts any number of bytes (all symbolic)" unwind=5 stubs="build_moov_box(recording stand-in)" timeout=3000
+fault_h!(c13_std_v1a1_at0, 1, 1, false, true, 0, 5);
+//@ prop=C13 tier=thorough cost=900 fns="Mp4Writer::finalize,finalize_standard,write_counted,io::Write::write_all" bound="standard, 1 video + 1 audio sample; write call #1 fails hard / is Interrupted / accepts any number of bytes (all symbolic)" unwind=5 stubs="build_moov_box(recording stand-in)" timeout=3000
+fault_h!(c13_std_v1a1_at1, 1, 1, false, true, 1, 5);
+//@ prop=C13 tier=quick cost=300 fns="Mp4Writer::finalize,finalize_standard,write_counted,io::Write::write_all" bound="standard, 1 video + 1 audio sample; write call #2 fails hard / is Interrupted / accepts any number of bytes (all symbolic)" unwind=5 stubs="build_moov_box(recording stand-in)" timeout=1200
+fault_h!(c13_std_v1a1_at2, 1, 1, false, true, 2, 5);
+//@ prop=C13 tier=thorough cost=900 fns="Mp4Writer::finalize,finalize_standard,write_counted,io::Write::write_all" bound="standard, 1 video + 1 audio sample; write call #3 fails hard / is Interrupted / accepts any number of bytes (all symbolic)" unwind=5 stubs="build_moov_box(recording stand-in)" timeout=3000
+fault_h!(c13_std_v1a1_at3, 1, 1, false, true, 3, 5);
+//@ prop=C13 tier=thorough cost=900 fns="Mp4Writer::finalize,finalize_standard,write_counted,io::Write::write_all" bound="standard, 1 video + 1 audio sample; write call #4 fails hard / is Interrupted / accepts any number of bytes (all symbolic)" unwind=5 stubs="build_moov_box(recording stand-in)" timeout=3000
+fault_h!(c13_std_v1a1_at4, 1, 1, false, true, 4, 5);
+//@ prop=C13 tier=thorough cost=900 fns="Mp4Writer::finalize,finalize_standard,write_counted,io::Write::write_all" bound="standard, 1 video + 1 audio sample; write call #5 fails hard / is Interrupted / accepts any number of bytes (all symbolic)" unwind=5 stubs="build_moov_box(recording stand-in)" timeout=3000
+fault_h!(c13_std_v1a1_at5, 1, 1, false, true, 5, 5);
+//@ prop=C13 tier=thorough cost=900 fns="Mp4Writer::finalize,finalize_fast_start,write_counted,io::Write::write_all" bound="fast start, video-only 2 samples; write call #0 fails hard / is Interrupted / accepts any number of bytes (all symbolic)" unwind=5 stubs="build_moov_box(recording stand-in)" timeout=3000
+fault_h!(c13_fast_v2_at0, 2, 0, true, false, 0, 5);
+//@ prop=C13 tier=thorough cost=900 fns="Mp4Writer::finalize,finalize_fast_start,write_counted,io::Write::write_all" bound="fast start, video-only 2 samples; write call #1 fails hard / is Interrupted / accepts any number of bytes (all symbolic)" unwind=5 stubs="build_moov_box(recording stand-in)" timeout=3000
+fault_h!(c13_fast_v2_at1, 2, 0, true, false, 1, 5);
+//@ prop=C13 tier=thorough cost=900 fns="Mp4Writer::finalize,finalize_fast_start,write_counted,io::Write::write_all" bound="fast start, video-only 2 samples; write call #2 fails hard / is Interrupted / accepts any number of bytes (all symbolic)" unwind=5 stubs="build_moov_box(recording stand-in)" timeout=3000
+fault_h!(c13_fast_v2_at2, 2, 0, true, false, 2, 5);
+//@ prop=C13 tier=thorough cost=900 fns="Mp4Writer::finalize,finalize_fast_start,write_counted,io::Write::write_all" bound="fast start, video-only 2 samples; write call #3 fails hard / is Interrupted / accepts any number of bytes (all symbolic)" unwind=5 stubs="build_moov_box(recording stand-in)" timeout=3000
+fault_h!(c13_fast_v2_at3, 2, 0, true, false, 3, 5);
+//@ prop=C13 tier=thorough cost=900 fns="Mp4Writer::finalize,finalize_fast_start,write_counted,io::Write::write_all" bound="fast start, video-only 2 samples; write call #4 fails hard / is Interrupted / accepts any number of bytes (all symbolic)" unwind=5 stubs="build_moov_box(recording stand-in)" timeout=3000
+fault_h!(c13_fast_v2_at4, 2, 0, true, false, 4, 5);
+//@ prop=C13 tier=quick cost=300 fns="Mp4Writer::finalize,finalize_fast_start,write_counted,io::Write::write_all" bound="fast start, video-only 2 samples; write call #5 fails hard / is Interrupted / accepts any number of bytes (all symbolic)" unwind=5 stubs="build_moov_box(recording stand-in)" timeout=1200
+fault_h!(c13_fast_v2_at5, 2, 0, true, false, 5, 5);
 
 // API level: an I/O failure surfaces as MuxerError::Io and the muxer stays finished-or-failed
-//@ prop=C13 tier=quick cost=400 fns="api::Muxer::finish_in_place_with_stats,Mp4Writer::finalize" bound="API muxer with one VP9 frame; hard failure at any write call index 0..=12" unwind=12 stubs="build_moov_box(recording stand-in)" timeout=1500
+//@ prop=C13 tier=quick cost=400 fns="api::Muxer::finish_in_place_with_stats,Mp4Writer::finalize" bound="API muxer with one VP9 frame, either layout; write call #2 fails hard or accepts any number of bytes" unwind=12 stubs="build_moov_box(recording stand-in)" timeout=1500
 #[kani::proof]
 #[kani::unwind(11)]
 #[kani::stub(muxide::invariant_ppt::__assert_invariant_impl, crate::stubs::assert_invariant_stub)]
@@ -131,8 +187,9 @@ pub fn c13_api_io_error() {
     use muxide::api::{MuxerBuilder, MuxerError, VideoCodec};
     no_carrier();
     let mut sink = RecSink::new();
-    sink.fail_at = kani::any();
-    kani::assume(sink.fail_at <= K);
+    sink.fault_at = 2;
+    sink.fault_fail = kani::any();
+    sink.fault_accept = kani::any();
     let mut m = match MuxerBuilder::new(sink).video(VideoCodec::Vp9, 64, 48, 30.0).with_fast_start(kani::any()).build() {
         Ok(m) => m,
         Err(_) => panic!("build"),
